@@ -31,6 +31,7 @@ FORBIDDEN = re.compile(r"\b(sorry|admit|native_decide|bv_decide|implemented_by|u
 TRANSLATED = {"C02", "C04", "C08", "C12", "C13", "C14", "C15", "C18", "C20"}
 # properties additionally exercised with the `fixed_point` feature in the thorough tier
 FIXED_POINT = {"C08", "C18", "C05"}
+FIXED_POINT_EVERY_TIER = {"C18"}
 
 
 class Lock:
@@ -352,12 +353,14 @@ def main():
     n_compared = main_run["n_compared"]
     extra_runs = []
     # thorough: the same check against the `fixed_point` feature build where the property mentions it
-    if tier == "thorough" and not replay and pid in FIXED_POINT:
-        fp = harness_run("quick", os.path.join(work, "run-fixed_point"), features="fixed_point")
+    # (C18 names the fixed_point build in its statement: there it runs in every tier, at the tier's own scope)
+    if not replay and pid in FIXED_POINT and (tier == "thorough" or pid in FIXED_POINT_EVERY_TIER):
+        fp_tier = tier if pid in FIXED_POINT_EVERY_TIER else "quick"
+        fp = harness_run(fp_tier, os.path.join(work, "run-fixed_point"), features="fixed_point")
         broken_theorems.extend(fp["errors"])
         failures.extend(fp["failures"])
         disagreements.extend(fp["disagreements"])
-        extra_runs.append({"features": "fixed_point", "tier": "quick", "ops": fp["n_ops"], "compared": fp["n_compared"],
+        extra_runs.append({"features": "fixed_point", "tier": fp_tier, "ops": fp["n_ops"], "compared": fp["n_compared"],
                            "oracle_failures": len(fp["failures"]), "disagreements": len(fp["disagreements"])})
     # a broken proof obligation or correspondence with no failing input yet: widen the search for one
     if tier == "quick" and not replay and (broken_theorems or disagreements) and not failures:
